@@ -317,6 +317,9 @@ def gen_history(rng, max_changes=3, max_files=3, pool=None, p_enc=0.4,
         if rng.chance(0.5):
             ops.append(gen_content_op(rng, 'meta', scope[-1], pool))
 
+        if ops[-1]['op'] == 'write_meta' and rng.chance(0.08):
+            continue        # a change that holds metadata and no files
+
         for _ in range(rng.randint(1, max_files)):
             cont('file', 2)
             ops.append(gen_content_op(rng, 'meta', scope[-1], pool))
